@@ -22,15 +22,15 @@ def upgma_inst(mode, ns, ob, prefix, y=None, **kw):
 
 def instances(tier):
     out = []
-    for ns in ((2, 3) if tier == "quick" else (2, 3, 4, 5)):
+    for ns in ((2, 3) if tier == "quick" else (2, 3, 4)):   # 5 records: no verdict in 900 s
         out.append(Inst(ob="O1", name="sort_n%d" % ns, harness="c03_sort.c", defs={"VK_NS": ns, "VK_QSORT_MAX": ns},
                         models=["models/vin.c", "models/msg.c", "models/qsort.c", "models/str.c"], native_srcs=["lib/src/tldevel.c", "lib/src/tlrng.c"],
                         unwind=max(ns + 2, 18), nb=3 * ns, ni=ns, timeout=900, mem_gb=6,
                         funcs=["sort_by_len_name", "sort_by_rank", "msa_sort_len_name", "msa_sort_rank"], cost=ns ** 2,
                         bound="%d records, any int lengths, any distinct 2-byte names, any permutation" % ns,
                         desc="canonical sort is permutation invariant; comparator laws"))
-    for ns in ((3,) if tier == "quick" else (3, 4, 5)):
-        out.append(upgma_inst(1, ns, "O3", "upgma"))
+    for ns in ((3,) if tier == "quick" else (3, 4)):      # 4 leaves (two runs compared): no verdict in 900 s, attempted with 2400 s; 5 leaves dropped
+        out.append(upgma_inst(1, ns, "O3", "upgma", timeout=2400 if ns == 4 else 900))
     from vk.props.C12 import dist_instances
     out += dist_instances(tier, ob="O2")     # distances do not read the caller's rank
     return out
